@@ -3,3 +3,4 @@ pub mod c12;
 pub mod c13;
 pub mod c15;
 pub mod c21;
+pub mod errfam;
